@@ -108,7 +108,18 @@ def gen_(rng, i, tier, kind):
         # products and powers of a model that already carries penalty terms blow up the model run: keep them before the
         # first constraint only
         first = next(j for j, e in enumerate(edits) if e["e"] == "cons")
-        edits = edits[:first] + [e for e in edits[first:] if e["e"] not in ("ipow",) and not (e["e"] == "imul" and e.get("okind") != "scalar")]
+        # ... but a product with a one-term operand (dict or model) stays: it takes the general product path (clear and
+        # rebuild) without growing the model, and the ancilla counter has to survive it
+        tail = []
+        for e in edits[first:]:
+            if e["e"] == "ipow":
+                continue
+            if e["e"] == "imul" and e.get("okind") != "scalar":
+                c1 = rng.choice([F(2), F(-1), F(1, 2), F(3)])
+                k1 = [] if rng.random() < 0.5 else [C.enc(rng.choice(labs))]
+                e = dict(e, terms=[[k1, [c1.numerator, c1.denominator]]])
+            tail.append(e)
+        edits = edits[:first] + tail
     return {"kind": kind, "init": G.jraw(init), "edits": edits}
 
 
